@@ -66,7 +66,8 @@ def _runtime_fail(r):
     elif k == 'missing_key':
         src = r.choice(['hk["zz"]', 'hk[7]', 'dict(enumerate(l))["zz"]', 'dict([[1, "a"]])[5]', 'mp["zz"]', 'cm["zz"]', 'ud["zz"]', 'x = ud[5]', 'd["zz"]', 'd[5]', 'd[None]', 'x = d["zz"]', 'd["a"]["zz"]', 'len(d["zz"])', 'map(l, v => d[v])', 'd[1.0]', '{}["a"]', '{"a": 1}["b"]'])
     elif k == 'index_out_of_range':
-        src = r.choice(['tp[5]', 'tp[-3]', 'l[9]', 'l[-9]', 'l[3]', 'x = l[99]', '[][0]', 's[99]', 'l[0][5]' if False else 'n[0][5]', 'map([7], v => l[v])', 'l[2.0 + 1]', '[1, 2][2]'])
+        src = r.choice(['tp[5]', 'tp[-3]', 'l[9]', 'l[-9]', 'l[3]', 'x = l[99]', '[][0]', 's[99]', 'l[0][5]' if False else 'n[0][5]', 'map([7], v => l[v])', 'l[2.0 + 1]', '[1, 2][2]',
+                        'l[10 ** 5000]', 's[0 - 10 ** 4400]', 'l[hugei]', 'tp[10 ** 4999]'])
     elif k == 'pop_empty':
         src = r.choice(['pop(e)', 'e.pop()', 'e | pop', 'pop([])', 'pop(l, 99)', 'l.pop(5)', 'x = pop(e)', 'pop(l, -9)',
                         'pop(e, "0")', 'l.pop("9")', 'pop(l, fz)', 'pop(e, fz)', 'pop(l, "-9")', 'pop(e, True)', 'l.pop(9.0)'])
@@ -77,7 +78,12 @@ def _runtime_fail(r):
     else:
         src = r.choice(['map(l, v => v + 1)', 'x = 1; y = 2; z = x + y; [x, y, z]', 'f = n => (0 if n <= 0 else f(n - 1)); f(50)', '1 + 2 + 3 + 4 + 5'])
         budget = r.randint(1, 6)
-        if r.random() < 0.3:
+        if r.random() < 0.08:
+            # a very wide expression: the budget runs out near its root (whatever the error says about the node, it says it
+            # without walking thousands of levels)
+            src = '1' + ' + 1' * 3500
+            budget = r.randint(2, 5)
+        elif r.random() < 0.3:
             # every element goes through a host function that evaluates on the SAME parser with a budget of its own:
             # the nested evaluations are separate calls, the outer budget still runs out
             src = r.choice(['l30 | map(p => taxed(p))', 'map(l30, p => taxed(p) + 1)', 'l30 | filter(p => taxed(p) > 0)'])
@@ -151,6 +157,7 @@ def _names(with_big=False):
          'tp': (1, 2), 'hk': {1: 10, 2.5: 'x', None: 0, 'a': 1}}
     n['l30'] = list(range(30))
     n['fz'] = 9.0
+    n['hugei'] = 10 ** 5000
     if with_big:
         n['big'] = list(range(10000))
         n['bigd'] = {str(i): i for i in range(10000)}
